@@ -1,0 +1,74 @@
+//go:build verif
+
+package dhcp4_spoofer
+
+import (
+	"net"
+	"net/netip"
+	"time"
+)
+
+// Verification hooks: compiled only with -tags verif. They expose unexported
+// state to the model-based verification harness and never change behaviour
+// of the server (VerifResetStorm only re-arms the rate limiter of the DISCOVER storm).
+
+// VerifLease is a read-only copy of one entry of the lease table.
+type VerifLease struct {
+	ClientID   []byte
+	MAC        net.HardwareAddr
+	IP         netip.Addr
+	IPOffer    netip.Addr
+	XID        []byte
+	State      State
+	Subnet     string // "net1", "net2" or "" when the lease has no subnet
+	SubnetLAN  netip.Prefix
+	DHCPExpiry time.Time
+	Name       string
+}
+
+// VerifLeases returns a snapshot of the lease table taken under the handler lock.
+func (h *Handler) VerifLeases() []VerifLease {
+	h.Lock()
+	defer h.Unlock()
+	out := make([]VerifLease, 0, len(h.table))
+	for _, l := range h.table {
+		v := VerifLease{
+			ClientID:   append([]byte{}, l.ClientID...),
+			MAC:        append(net.HardwareAddr{}, l.Addr.MAC...),
+			IP:         l.Addr.IP,
+			IPOffer:    l.IPOffer,
+			XID:        append([]byte{}, l.XID...),
+			State:      l.State,
+			DHCPExpiry: l.DHCPExpiry,
+			Name:       l.Name,
+		}
+		switch {
+		case l.subnet == nil:
+		case l.subnet == h.net1:
+			v.Subnet, v.SubnetLAN = "net1", l.subnet.LAN
+		case l.subnet == h.net2:
+			v.Subnet, v.SubnetLAN = "net2", l.subnet.LAN
+		default:
+			v.Subnet, v.SubnetLAN = "other", l.subnet.LAN
+		}
+		out = append(out, v)
+	}
+	return out
+}
+
+// VerifCursors returns the sequential allocation cursor of the home and the netfilter subnet.
+func (h *Handler) VerifCursors() (net1, net2 netip.Addr) {
+	h.Lock()
+	defer h.Unlock()
+	if h.net1 != nil {
+		net1 = h.net1.nextIP
+	}
+	if h.net2 != nil {
+		net2 = h.net2.nextIP
+	}
+	return net1, net2
+}
+
+// VerifResetStorm re-arms the process wide rate limiter of the DISCOVER storm (client.go: nextAttack)
+// so that the next DISCOVER handled by any handler triggers the storm again.
+func VerifResetStorm() { nextAttack = time.Now().Add(-time.Second) }
